@@ -79,6 +79,10 @@ def generate(tier, rng):
                     k += 1
                     cases.append(dict(stream="tolerance", coq=False, grid=grid, gname=gname, extra=extra,
                                       lifetime=dict(lt, inflow_at=["start", "middle", "end"][k % 3], n_pts=npts)))
+                    # the same table on a model that held other parameters before (very close ones, or clearly different ones):
+                    # the table is that of the parameters given last
+                    if k % 2:
+                        cases.append(dict(cases[-1], preset=[1 + 1e-6, 1.25, 1 - 3e-6][k % 3]))
     return cases
 
 
